@@ -530,6 +530,7 @@ func vcMod1[T any](p *T)                     {}
 func vcModElems[T any](s []T)                {}
 func vcModMap[K comparable, V any](m map[K]V) {}
 func vcFresh[T any](p T) bool                { return true }
+func vcByteStr(c byte) string                { return string([]byte{c}) }
 `
 
 type genCtx struct {
@@ -992,6 +993,15 @@ func (g *genCtx) localsFor(expr string, loop ast.Stmt, fd *ast.FuncDecl, info *t
 			continue
 		}
 		if isBoundIn(clean, id) {
+			continue
+		}
+		if strings.HasPrefix(id, "in_") {
+			for i, pn := range c.ParamNames {
+				if pn == id[3:] {
+					names = append(names, id)
+					typs = append(typs, c.ParamTypes[i])
+				}
+			}
 			continue
 		}
 		// look up starting at the loop scope, position = loop body start so init vars are visible
